@@ -14,17 +14,17 @@ DEFAULT_NOTE = 'Trusted: Coq kernel; the hand-written Gallina transcription of t
 TEXT = {
  'C01': 'theorems about the model\'s expression parser/evaluator: grouping is transparent, the precedence ladder table, operator semantics lemmas',
  'C02': 'theorems about the flat statement machine: block skipping lands after the matching close, a false condition enters the next branch, an executed branch skips the rest of the chain; stateless chain (the machine state has no if-flag component)',
- 'C03': 'theorems about loop bookkeeping of the model: recorded loop end, break/continue restore the scope depth recorded at loop entry and touch no outer scope',
+ 'C03': 'theorems about loop bookkeeping of the model: recorded loop end; break/continue act on the innermost loop; and, as an invariant of every reachable state inside a function body (for every statement vector the parser can produce), the innermost loop of the running call records exactly the scope height and the closing continue of its own block and the position is inside it, so break/continue cut the scope stack exactly to that height; the same composition at top level is covered by the loops stream only',
  'C04': 'theorems about the scope stack of the model: lookup after declare, shadowing, innermost assignment, frame of other names and scopes, undeclared is an error, nil initialisation',
- 'C05': 'theorems about call frames of the model: positional binding (missing nil, surplus unevaluated), truncation of scopes and loops to their height at the call',
+ 'C05': 'theorems about call frames of the model: positional binding (missing nil, surplus unevaluated); for every expression, with calls nested to any depth, on every well-formed machine over parser-producible code: the caller\'s position, scope height, loop stack, loop base and return stack are exactly restored; the frame invariant holds at every statement of a body',
  'C06': 'theorems about the arenas of the model: indexed write then read agree, every other cell unchanged, fresh address for concatenation results',
  'C07': 'theorems, for every heap and scope stack (any sharing, cycles, list<->record nesting): the mark phase marks exactly the reachable containers; a collection is total, keeps every reachable container unchanged, preserves reachability and well-formedness, and leaves no reachable slot on a free list, so the allocator never hands out live storage',
  'C08': 'theorems: one collection empties every unreachable container (unreachable cycles included) and lists it exactly once on the free list; the allocator takes from the free list whenever it is non-empty and grows the arena by one slot otherwise; every allocation advances the counter; the native trigger fires exactly at the threshold read from the source',
  'C09': 'theorems about the number model: digit tables are the intended bijections (regenerated from the source), printed text has the shape -?D+(.D+)? for finite values, infinities and NaN are unprintable',
  'C10': 'theorems, for every source and file name: tokenize never panics, never exhausts its computed fuel (termination), fails only with a syntax error located in that file, allocates at most length+1 tokens; spans and line numbers account for every non-blank character',
  'C11': 'theorems about the lexer model: blanks between tokens produce no token and only newlines move line numbers; comments are single tokens the parser drops',
- 'C12': 'theorems about the parser model: no panic for any token list and fuel; every successful sub-parse consumes at least one token (no zero-progress loop)',
- 'C13': 'theorems about the machine model: every error value carries the output written so far; built-in faults are RuntimeErrors located at the current statement; _এরর(m) reports exactly m',
+ 'C12': 'theorems about the parser model: no panic for any token list, file map and fuel; every successful sub-parse consumes at least one token (no zero-progress loop); the produced statement vector is well formed (records have as many values as keys, one end marker, last)',
+ 'C13': 'theorems about the machine model: whatever the front end accepts runs without a panic for every fuel, collection schedule and world (machine invariant + frame invariant, induction over all steps); every error value carries the output written so far; the listed faults are errors located at the current statement; _এরর(m) reports exactly m; the error kind/line per fault position and the exit status are covered by the faults and cli streams',
  'C14': 'theorems about the renaming of imported tokens: exactly identifiers that are not built-ins are prefixed, injectively, so prefixed and unprefixed names never collide',
  'C15': 'theorems about the loader model: an import of a file on the current import chain is rejected with the cyclic-dependency error before its tokens are read',
  'C16': 'theorems: each list built-in of the model computes the corresponding sequence operation on exactly the addressed list and leaves every other list unchanged; invalid positions are errors that leave the heap unchanged',
@@ -48,8 +48,8 @@ def main():
                 'replay_cmd_template': './check --replay {path}',
                 'engine': 'coq-model',
                 'level_claimed': {'category': 'proof',
-                                  'text': 'Machine-checked ' + TEXT[pid] + '. The model is tied to /repo on every run by the table translator (tables regenerated from the source and the theorems re-checked against them) and by the differential correspondence streams of this property (implementation vs. extracted model), which are also the failing-input search. What is proved and what is only tested is listed per theorem in DESIGN.md section 10.',
-                                  'design_ref': 'DESIGN.md sections 7 and 10, ' + pid},
+                                  'text': 'Machine-checked ' + TEXT[pid] + '. The model is tied to /repo on every run by the table translator (tables regenerated from the source and the theorems re-checked against them) and by the differential correspondence streams of this property (implementation vs. extracted model), which are also the failing-input search. What is proved and what is only tested is listed per property in DESIGN.md, Amendment A.3.',
+                                  'design_ref': 'DESIGN.md section 7 and Amendment A.3, ' + pid},
                 'level_note': DEFAULT_NOTE,
                 'technique': 'Coq proof on a Gallina model + translator-regenerated tables + differential correspondence (extracted model vs. implementation)',
             })
